@@ -90,10 +90,22 @@ func wildConfig(r *sim.Rng, c *WCase) {
 		lc, lp, pb, dict, buf, noProps, matcher = &c.XZ.LC, &c.XZ.LP, &c.XZ.PB, &c.XZ.DictCap, &c.XZ.BufSize, &c.XZ.NoProps, &c.XZ.Matcher
 	case c.L2 != nil:
 		lc, lp, pb, dict, buf, noProps, matcher = &c.L2.LC, &c.L2.LP, &c.L2.PB, &c.L2.DictCap, &c.L2.BufSize, &c.L2.NoProps, &c.L2.Matcher
+	case c.LZ != nil:
+		lc, lp, pb, dict, buf, noProps, matcher = &c.LZ.LC, &c.LZ.LP, &c.LZ.PB, &c.LZ.DictCap, &c.LZ.BufSize, &c.LZ.NoProps, &c.LZ.Matcher
 	default:
 		return
 	}
-	switch r.Intn(7) {
+	k := r.Intn(7)
+	if c.LZ != nil && k < 2 {
+		// the classic format allows every lc 0..8 with every lp 0..4
+		k = 2 + r.Intn(2)
+		if r.Chance(1, 4) {
+			c.LZ.SizeInHeader, c.LZ.Size = true, -int64(r.Range(1, 5000)) // a negative size
+			c.Wild = true
+			return
+		}
+	}
+	switch k {
 	case 0, 1:
 		// literal parameters: each within its own range, the sum (LZMA2: at most 4) not
 		*lc, *lp, *noProps = r.Intn(9), r.Intn(5), false
